@@ -484,3 +484,8 @@ LEVEL_NOTE = (LEVEL_NOTE + " Model/TzConvert.v is no longer tied to /repo by pin
               "pendulum's timezone glue from /repo on every run and the model_is_code_* theorems prove the hand model equal to it "
               "(native operations as primitives tied to CPython by the spec_is_stdlib_* theorems; from_timestamp, instance, set/on/at/replace "
               "remain hand-written + pinned).")
+
+
+# ---- second batch of model = code theorems (appended) ----
+TRUSTED = [t for t in TRUSTED] + ['model_is_code_from_timestamp / _instance: pendulum.from_timestamp (integer timestamp, timezone object; pendulum.datetime translated too) = from_timestamp_int, DateTime.instance (tzinfo of the native value and the tz argument None or pendulum timezone objects) = create with the native fold; _safe_timezone for foreign tzinfo kinds (zoneinfo key, utcoffset-derived fixed offset, tzname) remains hand-written + pinned']
+LEVEL_NOTE = LEVEL_NOTE + " " + 'model_is_code_from_timestamp / _instance: pendulum.from_timestamp (integer timestamp, timezone object; pendulum.datetime translated too) = from_timestamp_int, DateTime.instance (tzinfo of the native value and the tz argument None or pendulum timezone objects) = create with the native fold; _safe_timezone for foreign tzinfo kinds (zoneinfo key, utcoffset-derived fixed offset, tzname) remains hand-written + pinned' + "."
